@@ -31,7 +31,7 @@ type recNode struct {
 	id      string
 	peers   []ethnode.PeerInfo
 	calls   []string // mutating calls in order: "untrust:<id>", "disconnect:<id>", "connect:<uri>", "trust:<id>"
-	failAt  string   // a call name that fails
+	fail    string   // "untrust" / "disconnect": calls of that kind are attempted (recorded) and fail
 	enodeOK bool
 	// slow: every call to the node takes this long (virtual time, controlled executions only) and,
 	// like a real RPC client, fails once its context has ended
@@ -67,6 +67,9 @@ func (n *recNode) RemoveTrustedPeer(ctx context.Context, id string) error {
 		return err
 	}
 	n.calls = append(n.calls, "untrust:"+id)
+	if n.fail == "untrust" {
+		return errors.New("the node refuses to un-trust this peer (injected)")
+	}
 	return nil
 }
 func (n *recNode) ConnectPeer(ctx context.Context, uri string) error {
@@ -86,6 +89,9 @@ func (n *recNode) DisconnectPeer(ctx context.Context, id string) error {
 		return err
 	}
 	n.calls = append(n.calls, "disconnect:"+id)
+	if n.fail == "disconnect" {
+		return errors.New("the node refuses to disconnect this peer (injected)")
+	}
 	var keep []ethnode.PeerInfo
 	for _, p := range n.peers {
 		if p.EnodeID() != id {
@@ -240,10 +246,19 @@ type c18Round struct {
 	// address they are connected through, 2 the unspecified address, 3 some other address. The
 	// host a peer is connected through is network.remoteAddress, whatever it advertises.
 	enodeForm int
+	nodeFail  string // the node refuses every call of this kind ("untrust" / "disconnect")
+	driver    string // "": the agent talks to the recording node directly; "rpc": through ethnode.RemoteNode
 }
 
 func (r c18Round) String() string {
-	return fmt.Sprintf("peers=%v invalid=%v strict=%v target=%d node=%s/full=%v pool-returns=%d peer-error=%q advertised-enode-form=%d", r.states, shortIDs(r.invalid), r.strict, r.target, r.kind, r.full, r.nHosts, r.peerErr, r.enodeForm)
+	s := fmt.Sprintf("peers=%v invalid=%v strict=%v target=%d node=%s/full=%v pool-returns=%d peer-error=%q advertised-enode-form=%d", r.states, shortIDs(r.invalid), r.strict, r.target, r.kind, r.full, r.nHosts, r.peerErr, r.enodeForm)
+	if r.nodeFail != "" {
+		s += " node-refuses=" + r.nodeFail
+	}
+	if r.driver != "" {
+		s += " through-the-real-" + r.kind.String() + "-driver"
+	}
+	return s
 }
 
 func shortIDs(l []string) []string {
@@ -363,7 +378,7 @@ func c18Run(u *vh.U, r c18Round, node *recNode, first bool, a *agent.Agent, sp *
 		u.Violate("agent/needless-peer-request", fmt.Sprintf("%s: %d active peers, target %d, yet %d peer requests / %d connects", desc, nActive, r.target, len(sp.peerReqs), len(connected)), nil)
 		return false
 	}
-	if err != nil && r.peerErr != "transport" {
+	if err != nil && r.peerErr != "transport" && r.nodeFail == "" {
 		u.Violate("agent/round-failed", fmt.Sprintf("%s: UpdatePeers returned %v", desc, err), nil)
 		return false
 	}
@@ -717,7 +732,10 @@ func init() {
 			for s := 0; s < n; s++ {
 				us = append(us, c18Single(s, n))
 			}
-			us = append(us, c18ErrorsAndHistories(), c18SlowRound())
+			us = append(us, c18ErrorsAndHistories(), c18SlowRound(), c18NodeFaults())
+			for s := 0; s < 4; s++ {
+				us = append(us, c18Drivers(s, 4))
+			}
 			return us
 		},
 	})
